@@ -960,6 +960,11 @@ class HttpPayloadParser:
             bytes - If payload is complete, this is the unconsumed bytes intended for the
                     next message/payload, b"" otherwise.
         """
+        # NOTE: every PAYLOAD_NEEDS_INPUT return drops a pending pause request.
+        # Nothing is held back in that state, and the next call only comes with
+        # new data or after the reader was drained; a stale flag would make that
+        # call report pending input which nobody is ever going to resume.
+
         # Read specified amount of bytes
         if self._type == ParseState.PARSE_LENGTH:
             if self._chunk_tail:
@@ -1049,6 +1054,7 @@ class HttpPayloadParser:
                             set_exception(self.payload, exc)
                             raise exc
                         self._chunk_tail = chunk
+                        self._paused = False
                         return PayloadState.PAYLOAD_NEEDS_INPUT, b""
 
                 # read chunk and feed buffer
@@ -1087,6 +1093,7 @@ class HttpPayloadParser:
                         raise exc
                     else:
                         self._chunk_tail = chunk
+                        self._paused = False
                         return PayloadState.PAYLOAD_NEEDS_INPUT, b""
 
                 if self._chunk == ChunkState.PARSE_TRAILERS:
@@ -1099,6 +1106,7 @@ class HttpPayloadParser:
                             set_exception(self.payload, exc)
                             raise exc
                         self._chunk_tail = chunk
+                        self._paused = False
                         return PayloadState.PAYLOAD_NEEDS_INPUT, b""
 
                     line = chunk[:pos]
@@ -1142,6 +1150,7 @@ class HttpPayloadParser:
                 self._eof_pending = False
                 return PayloadState.PAYLOAD_COMPLETE, b""
 
+        self._paused = False
         return PayloadState.PAYLOAD_NEEDS_INPUT, b""
 
 
